@@ -4,7 +4,7 @@
 (* call = [acc : Seq(BOOLEAN) (7), same : Seq(BOOLEAN) (7)  result equals decoder k's own result, *)
 (*         outcome \in {"dict","none","raised","hang"}, detail, prev_before, prev_after, own,     *)
 (*         pair : "" | "equal" | "differ"  (decode_message vs decode_message_payload in lockstep),*)
-(*         steps, n]                                                                              *)
+(*         steps, n, form : "payload" | "message" | "readout"]                                    *)
 EXTENDS AutoDecoder, SequencesExt, TLC, Json, IOUtils
 StepBound(n) == 400000 + 6000 * n + 40 * n * n      \* profile events; generous (C15's polynomial clause is a measurement)
 CallFails(c, i) ==
@@ -13,6 +13,11 @@ CallFails(c, i) ==
       bad(cl) == <<[c |-> cl, at |-> i]>> IN
   IF c.outcome = "raised" THEN bad("C15.raised")
   ELSE IF c.outcome = "hang" THEN bad("C15.hang")
+  ELSE IF c.form = "readout" THEN      \* decode_message(DataReadout): the result carries identification fields, so only the memory clauses apply
+       (IF c.steps > StepBound(c.n) THEN bad("C15.steps") ELSE <<>>)
+       \o (IF c.outcome = "none" /\ c.prev_after # c.prev_before THEN bad("C12.previous_unchanged") ELSE <<>>)
+       \o (IF c.outcome = "dict" /\ c.prev_after \notin acc THEN bad("C12.previous_success_decoder") ELSE <<>>)
+       \o (IF c.outcome = "dict" /\ c.own # 0 /\ c.prev_before \in {0, c.own} /\ c.prev_after # c.own THEN bad("C12.genuine_own_decoder") ELSE <<>>)
   ELSE (IF c.steps > StepBound(c.n) THEN bad("C15.steps") ELSE <<>>)
        \o (IF (c.outcome = "none") # (acc = {}) THEN bad("C12.none_iff_nobody") ELSE <<>>)
        \o (IF c.outcome = "dict" /\ same \cap acc = {} THEN bad("C12.result_of_accepting_decoder") ELSE <<>>)
